@@ -421,6 +421,61 @@ func Build() []Call {
 		marshalCall("marshal/map-v1-sorted", "det", false, func() any { return shuffledMap(25) }, v1),
 		marshalCall("marshal/map-dup-keys-error", "marshal", false, fixed(map[TextKeyDup]int{{1}: 1, {2}: 1}), json.Deterministic(true)),
 	)
+	// ---- embedded fallback maps (their sorted-names scratch slice comes from the same process-wide
+	// pool as that of every Deterministic map marshal) and nested string-keyed maps under Deterministic
+	restAny := func() any {
+		return RestAny{A: 1, Rest: map[string]any{"x": 1, "b": "two", "m": map[string]any{"k2": 2, "k1": 1}, "c": nil, "zz": []any{1}}}
+	}
+	nestedAny := func() any {
+		return map[string]any{
+			"alpha": map[string]any{"a2": 2, "a1": 1, "a3": map[string]any{"deep2": "y", "deep1": "x"}},
+			"beta":  1, "gamma": map[string]any{"g1": true, "g2": false}, "delta": "d", "epsilon": map[string]any{"e": nil, "f": 1.5},
+			"zeta": []any{map[string]any{"q": 1, "p": 2}}, "eta": 7, "theta": 8,
+		}
+	}
+	nestedTyped := func() any {
+		return map[string]map[string]int{
+			"one": {"b": 2, "a": 1, "c": 3}, "two": {"y": 25, "x": 24}, "three": {"only": 1}, "four": {"m": 1, "n": 2, "o": 3, "p": 4}, "five": {},
+		}
+	}
+	add(
+		marshalCall("embed/rest-any-det", "det", false, restAny, json.Deterministic(true)),
+		marshalCall("embed/rest-any-unordered", "marshal", true, restAny),
+		marshalCall("embed/rest-any-v1", "det", false, restAny, v1),
+		marshalCall("embed/rest-ints-det", "det", false, func() any {
+			return &RestInts{Z: "z", Rest: map[string]int{"b": 2, "a": 1, "c": 3}}
+		}, json.Deterministic(true)),
+		marshalCall("embed/rest-ints-two-det-indent", "det", false, func() any {
+			return []RestInts{{Z: "1", Rest: map[string]int{"q": 1, "p": 2}}, {Z: "2", Rest: map[string]int{"only": 1}}, {Z: "3", Rest: map[string]int{"t": 1, "s": 2, "r": 3, "u": 4}}}
+		}, json.Deterministic(true), jsontext.WithIndent(" ")),
+		marshalCall("embed/rest-raw-det", "det", false, fixed(RestRaw{A: 1, Rest: jsontext.Value(`{"y":1,"x":{"b":2,"a":1}}`)}), json.Deterministic(true)),
+		marshalCall("embed/rest-nested-det", "det", false, func() any {
+			return RestNested{ID: 9, Rest: map[string]map[string]int{"n2": {"b": 1, "a": 2}, "n1": {"z": 26, "y": 25, "x": 24}, "n3": {}}}
+		}, json.Deterministic(true)),
+		marshalCall("embed/rest-dup-with-field-error-det", "det", false, fixed(RestInts{Z: "z", Rest: map[string]int{"a": 1, "z": 2}}), json.Deterministic(true)),
+		marshalCall("embed/rest-error-inside-det", "det", false, fixed(RestAny{A: 1, Rest: map[string]any{"k1": 1, "k2": make(chan int), "k3": 3}}), json.Deterministic(true)),
+		marshalCall("embed/rest-panic-inside-det", "det", false, fixed(RestAny{A: 1, Rest: map[string]any{"k1": 1, "k2": ByMethod{M: MPanic}, "k3": 3}}), json.Deterministic(true)),
+		marshalCall("nested/any-det", "det", false, nestedAny, json.Deterministic(true)),
+		marshalCall("nested/any-det-indent", "det", false, nestedAny, json.Deterministic(true), jsontext.WithIndent("\t")),
+		marshalCall("nested/any-v1", "det", false, nestedAny, v1),
+		marshalCall("nested/typed-det", "det", false, nestedTyped, json.Deterministic(true)),
+		marshalCall("nested/typed-unordered", "marshal", true, nestedTyped),
+		marshalCall("nested/struct-of-maps-det", "det", false, func() any {
+			return struct {
+				M1 map[string]any
+				M2 map[string]map[string]int
+				R  RestAny
+			}{nestedAny().(map[string]any), nestedTyped().(map[string]map[string]int), restAny().(RestAny)}
+		}, json.Deterministic(true)),
+		marshalWriteCall("nested/any-det-marshalwrite", "det", wPlain, 0, nestedAny, json.Deterministic(true)),
+		marshalCall("nested/any-det-error-inside", "det", false, func() any {
+			m := nestedAny().(map[string]any)
+			m["alpha"].(map[string]any)["a3"].(map[string]any)["deep1"] = make(chan int)
+			return m
+		}, json.Deterministic(true)),
+		unmarshalCall("embed/unmarshal-rest-any", "unmarshal", []byte(`{"a":1,"x":{"k":[1,2]},"y":"s","a2":null}`), newT[RestAny]()),
+		unmarshalCall("embed/unmarshal-rest-raw", "unmarshal", []byte(`{"x":{"k":[1,2]},"a":1,"y":"s"}`), newT[RestRaw]()),
+	)
 	add(Call{Name: "marshal/v1.Marshal", Kind: "marshal", Run: func() Out {
 		r := new(rec) // every error this execution receives is a retained result
 		var out []byte
